@@ -12,10 +12,13 @@ from gridrv.oracles import c18ref
 PROP = "C18"
 TITLE = "Multi-domain integration equals the iterated product quadrature"
 REQUIRED_HOOKS = ["MultiDomainGrid.__init__", "MultiDomainGrid.integrate", "MultiDomainGrid.size", "MultiDomainGrid.points", "MultiDomainGrid.weights", "MultiDomainGrid.num_domains"]
-REQUIRED_FAMILIES = ["product", "repeated", "default-chunk", "hostile"]
+REQUIRED_FAMILIES = ["product", "repeated", "default-chunk", "hostile", "history", "huge-size", "forms"]
 BUDGET = {"quick": 300, "thorough": 2400}
 TOL = 1e-12
 TOLW = 1e-14
+# component grids whose WEIGHTS are stored in single precision: the library multiplies them in float32 (np.prod of a tuple of
+# float32), so the product quadrature itself is only defined to float32 rounding (measured <= 2.4e-7); decided at 5e-5
+TOL32 = 5e-5
 MAX_REF = 40000  # product sets larger than this are not enumerated by the monitor
 RULE = (
     "Post-conditions attached to MultiDomainGrid.__init__/.integrate/.size/.num_domains/.points/.weights fire on every call: the "
@@ -29,7 +32,13 @@ RULE = (
     "points; bare Grid, Gauss-Legendre/other OneDGrid rules, AngularGrid(6 points), UniformGrid, small AtomGrid) or one grid "
     "repeated num_domains = 1-4 times, integrated with separable and non-separable integrands: vectorised, and point by point "
     "with every chunk size in {1,2,3,7,N-1,N,N+1,6000} (+ np.int64 chunk); family default-chunk uses 6001-16000 tuples so that "
-    "the default chunk size really splits. Non-trivial = at least one integral was compared with the nested sum."
+    "the default chunk size really splits. history = ONE MultiDomainGrid object driven through 4-8 rounds of (random subset of: "
+    "enumerate size/points/weights, vectorised integral, point-by-point integrals with random chunk sizes) with a component grid's "
+    "weights or points changed between rounds through the public Grid setters / in place; every round is decided against the CURRENT "
+    "component arrays (the reference copies them at every call). huge-size = product sets of 2**40 .. 2**200 tuples in repeated and "
+    "list mode: size must be the exact integer product (never enumerated). forms = component grids with integer / float32 points "
+    "and weights, integrands returning integer / float32 / complex / Python-float values, num_domains as NumPy integers. "
+    "Non-trivial = at least one integral was compared with the nested sum (huge-size: one size compared)."
 )
 ASSUMPTIONS = [
     "reference order of the product set: first domain slowest, last domain fastest (the documented nested-loop order)",
@@ -55,6 +64,16 @@ def cases(tier, seed):
                 out.append(("repeated", {"D": D, "integrand": kind, "k": k}, 1.0 + 3.0 ** D / 8))
     for k in range(6 if q else 96):
         out.append(("default-chunk", {"D": 2 + k % 3, "repeat": bool(k % 4 == 3), "k": k}, 40.0))
+    for k in range(16 if q else 400):
+        out.append(("history", {"D": 1 + k % 4, "repeat": bool(k % 3 == 2), "k": k}, 6.0))
+    # pinned witness of the list-mode int64 wrap-around (finding C18-size-list-int64-wrap) + the same size in repeated mode
+    out.append(("huge-size", {"mode": "list", "n": 2000, "k": 6, "pinned": True}, 1e9))
+    out.append(("huge-size", {"mode": "repeated", "n": 2000, "k": 6, "pinned": True}, 1e9))
+    for k in range(12 if q else 200):
+        out.append(("huge-size", {"mode": ["repeated", "list", "mixed-list"][k % 3], "k": k}, 1.0))
+    for form in ("int-grids", "float32-grids", "float32-points-only", "int-integrand", "float32-integrand", "complex-integrand", "numpy-num-domains"):
+        for k in range(3 if q else 40):
+            out.append(("forms", {"form": form, "k": k}, 2.0))
     for what in ("single-point-domains", "zero-weights", "signed-weights", "same-grid-listed", "numpy-int-num-domains", "num-domains-one", "python-float-integrand", "huge-chunk"):
         for k in range(2 if q else 20):
             out.append(("hostile", {"what": what, "k": k}, 2.0))
@@ -72,10 +91,17 @@ class Integrand:
         self.shift = [float(rng.uniform(-0.5, 0.5)) for _ in dims]
         self.pick = [int(rng.integers(0, 4)) for _ in dims]
         self.as_python_float = False
+        self.returns = None  # None | "int" | "float32" | "complex"  (kind "poly" only)
 
     def u(self, k, a):
         a = np.asarray(a, dtype=float)
         c = self.coef[k]
+        if self.kind == "poly" and not isinstance(c, float):
+            # element-wise sum of products only: bit-identical for one point and for an array of points
+            v = a[..., 0] * c[0]
+            for j in range(1, len(c)):
+                v = v + a[..., j] * c[j]
+            return v + self.shift[k]
         return (a * c if isinstance(c, float) else a @ c) + self.shift[k]
 
     def h(self, k, u):
@@ -101,6 +127,17 @@ class Integrand:
             for k, u in enumerate(us):
                 p = p * np.cos(u + k)
             v = v + 0.5 * p
+        elif self.kind == "poly":  # + and * only (exactly reproducible), then cast to the requested return type
+            v = us[0] + 0.5 * us[0] * us[-1]
+            for k, u in enumerate(us):
+                v = v + (k + 1.0) * u * u
+            if self.returns == "int":
+                v = np.floor(v * 8.0)
+                return v.astype(np.int64) if np.ndim(v) else int(v)
+            if self.returns == "float32":
+                return np.float32(v) if np.ndim(v) == 0 else v.astype(np.float32)
+            if self.returns == "complex":
+                return v + 1j * (us[-1] * us[0] - 0.25)
         else:  # oscillating, sign-changing, not symmetric in the arguments
             v = np.sin(sum((k + 1.0) * u for k, u in enumerate(us))) + us[-1] * 0
         return float(v) if (self.as_python_float and np.ndim(v) == 0) else v
@@ -137,9 +174,8 @@ def _ref_grids(mg):
 
 
 def _reference(mg, raw):
-    for e in _memo:
-        if e[0] is mg and e[1] is raw:
-            return e[2], e[3], e[4]
+    """(doms, S, A) for the CURRENT arrays of the component grids: they are copied at every call, the nested sum is only
+    re-used when the copies are byte-identical to those of an earlier call with the same integrand."""
     rg = _ref_grids(mg)
     if rg is None:
         return None
@@ -150,10 +186,22 @@ def _reference(mg, raw):
     if n > MAX_REF:
         return None
     doms = c18ref.domain_arrays(grids)
+    key = c18ref.digest(doms)
+    for e in _memo:
+        if e[0] is raw and e[1] == key:
+            return doms, e[2], e[3]
     S, A = c18ref.nested_sum(doms, raw)
-    _memo.insert(0, (mg, raw, doms, S, A))
+    _memo.insert(0, (raw, key, S, A))
     del _memo[6:]
     return doms, S, A
+
+
+def _tol(grids):
+    """1e-12, or TOL32 when some component grid stores its weights in single (or half) precision."""
+    for g in grids:
+        if np.asarray(g.weights).dtype in (np.float32, np.float16):
+            return TOL32, "[float32-weights]"
+    return TOL, ""
 
 
 def _bind(names, defaults, args, kwargs):
@@ -211,13 +259,18 @@ def _post_integrate(res, exc, args, kwargs):
     ctx.check("integral-is-scalar", subj, np.ndim(res) == 0, detail={"type": type(res).__name__})
     if np.ndim(res) != 0:
         return
-    got = np.longdouble(float(res))
+    if np.iscomplexobj(res) or np.iscomplexobj(S):
+        got = np.clongdouble(complex(res))
+        ctx.count("integrate-decided:complex-valued integrand (real and imaginary parts)")
+    else:
+        got = np.longdouble(float(res))
     meas = float(abs(got - S) / A) if A > 0 else (0.0 if got == 0 else float("inf"))
+    tol, tag32 = _tol(grids)
     if nv:
         sig = f"chunk-{'divides' if n % int(chunk) == 0 else 'does-not-divide'}-N" if chunk < n else "chunk>=N"
     else:
         sig = "vectorised"
-    ctx.check("integral-equals-nested-sum", subj, meas, TOL, sig=sig, detail={"got": float(res), "want": float(S), "scale": float(A), "chunk": int(chunk), "N": n, "sizes": [len(d[1]) for d in doms]})
+    ctx.check("integral-equals-nested-sum" + tag32, subj, meas, tol, sig=sig, detail={"got": complex(res) if np.iscomplexobj(res) else float(res), "want": complex(S) if np.iscomplexobj(S) else float(S), "scale": float(A), "chunk": int(chunk), "N": n, "sizes": [len(d[1]) for d in doms]})
     ctx.count(f"integrate-decided:{'point-by-point' if nv else 'vectorised'}:D={D}:{_mode(mg)}")
 
 
@@ -236,7 +289,14 @@ def _post_size(res, exc, args, kwargs):
     for g in grids:
         want *= int(np.asarray(g.weights).size)
     ok = np.ndim(res) == 0 and isinstance(res, (int, np.integer)) and int(res) == want
-    ctx.check("size-equals-product-of-sizes", subj, ok, detail={"got": repr(res)[:40], "want": want})
+    sig = None
+    if want >= 2**63:
+        # far too large to enumerate: the size is still defined (exact integer product of the component sizes)
+        subj = f"size[huge,{_mode(mg)}]"
+        if not ok and np.ndim(res) == 0 and isinstance(res, (int, np.integer)):
+            sig = "int64-wraparound" if int(res) == (want + 2**63) % 2**64 - 2**63 else "mismatch"
+        ctx.count(f"size-decided:huge:{_mode(mg)}")
+    ctx.check("size-equals-product-of-sizes", subj, ok, sig=sig, detail={"got": repr(res)[:40], "want": str(want), "sizes": sorted({int(np.asarray(g.weights).size) for g in grids}), "D": len(grids)})
 
 
 def _post_num_domains(res, exc, args, kwargs):
@@ -267,7 +327,7 @@ def _compare_points(got, doms):
     return None
 
 
-def _compare_weights(got, doms):
+def _compare_weights(got, doms, tol=TOLW):
     want = c18ref.product_weights(doms)
     try:
         got = np.array([float(v) for v in got])
@@ -277,7 +337,7 @@ def _compare_weights(got, doms):
         return f"length:{len(got)}!={len(want)}", float("inf")
     scale = np.where(want != 0, np.abs(want), 1.0)
     m = float(np.max(np.abs(got - want) / scale)) if len(want) else 0.0
-    return ("mismatch" if not m <= TOLW else None), m
+    return ("mismatch" if not m <= tol else None), m
 
 
 def _make_generator_post(which, fget_holder):
@@ -306,8 +366,9 @@ def _make_generator_post(which, fget_holder):
             why = _compare_points(second, doms)
             ctx.check(clause, subj, why is None, sig=why)
         else:
-            why, m = _compare_weights(second, doms)
-            ctx.check(clause, subj, m, TOLW, sig=why)
+            tol32 = _tol(grids)[0] if _tol(grids)[1] else TOLW
+            why, m = _compare_weights(second, doms, tol32)
+            ctx.check(clause + _tol(grids)[1], subj, m, tol32, sig=why)
 
     return post
 
@@ -338,7 +399,7 @@ def setup(ctx):
 
 
 # ----------------------------------------------------------------------------- workload
-DOMAIN_KINDS = ["flat1d", "col1d", "2d", "3d", "gausslegendre", "onedrule", "angular6", "uniform2d", "atomgrid", "3d", "flat1d"]
+DOMAIN_KINDS = ["flat1d", "col1d", "2d", "3d", "gausslegendre", "onedrule", "angular6", "uniform2d", "atomgrid", "3d", "flat1d", "int-grid"]
 
 
 def _domain(rng, kind, size):
@@ -358,6 +419,13 @@ def _domain(rng, kind, size):
         return Grid(rng.normal(size=(size, 2)), w), 2
     if kind == "3d":
         return Grid(rng.normal(size=(size, 3)), w), 3
+    if kind == "int-grid":  # integer-typed points AND weights (exact products)
+        dim = int(rng.integers(0, 4))
+        return Grid(rng.integers(-3, 4, (size, dim) if dim else size), rng.integers(1, 5, size)), dim
+    if kind in ("float32-grid", "float32-points"):
+        dim = int(rng.integers(0, 4))
+        pts = rng.normal(size=(size, dim) if dim else size).astype(np.float32)
+        return Grid(pts, w.astype(np.float32) if kind == "float32-grid" else w), dim
     if kind == "gausslegendre":
         return onedgrid.GaussLegendre(max(size, 2)), 0  # rules are defined for npoints >= 2
     if kind == "onedrule":
@@ -390,11 +458,16 @@ def _single_integral(dom, f, k):
     return t.sum(), np.abs(t).sum()
 
 
-def _exercise(ctx, mg, grids_ref, dims, kinds, chunks=None, log_args=True):
-    """Drive every public observable of one MultiDomainGrid; the attached post-conditions decide, plus cross-route checks."""
+def _exercise(ctx, mg, grids_ref, dims, kinds, chunks=None, log_args=True, parts=("enum", "vec", "pbp"), returns=None):
+    """Drive every public observable of one MultiDomainGrid; the attached post-conditions decide, plus cross-route checks.
+
+    ``parts`` selects what is exercised (history cases use random subsets); the component arrays are copied NOW, so every
+    call of this function is decided against the current state of the component grids."""
     rng = ctx.rng
     D = len(grids_ref)
     doms = c18ref.domain_arrays(grids_ref)
+    tol, tag32 = _tol(grids_ref)
+    tolw = tol if tag32 else TOLW
     sizes = [len(d[1]) for d in doms]
     n = int(np.prod(sizes))
     mode = _mode(mg)
@@ -403,13 +476,13 @@ def _exercise(ctx, mg, grids_ref, dims, kinds, chunks=None, log_args=True):
         ctx.check("num-domains", f"num_domains[{mode}]:seen-by-caller", mg.num_domains == D)
     with ctx.guard("size-equals-product-of-sizes", f"size[{tag}]"):
         ctx.check("size-equals-product-of-sizes", f"size[{tag}]:seen-by-caller", int(mg.size) == n)
-    if n <= 8000:
+    if n <= 8000 and "enum" in parts:
         with ctx.guard("points-product-order", f"points[{tag}]"):
             why = _compare_points(list(mg.points), doms)
             ctx.check("points-product-order", f"points[{tag}]:generator-seen-by-caller", why is None, sig=why)
         with ctx.guard("weights-product-order", f"weights[{tag}]"):
-            why, m = _compare_weights(list(mg.weights), doms)
-            ctx.check("weights-product-order", f"weights[{tag}]:generator-seen-by-caller", m, TOLW, sig=why)
+            why, m = _compare_weights(list(mg.weights), doms, tolw)
+            ctx.check("weights-product-order" + tag32, f"weights[{tag}]:generator-seen-by-caller", m, tolw, sig=why)
             # lock-step: zip(points, weights) pairs each tuple with the product of ITS weights
             pairs = list(zip(mg.points, mg.weights))
             ctx.check("points-weights-lock-step", f"zip[{tag}]", len(pairs) == n)
@@ -417,6 +490,7 @@ def _exercise(ctx, mg, grids_ref, dims, kinds, chunks=None, log_args=True):
     for kind in kinds:
         f = Integrand(rng, dims, kind)
         f.as_python_float = bool(rng.random() < 0.3)
+        f.returns = returns
         F = Counted(f, D)
         ref = _reference(mg, f)
         if ref is None:
@@ -424,21 +498,22 @@ def _exercise(ctx, mg, grids_ref, dims, kinds, chunks=None, log_args=True):
         _, S, A = ref
         results = {}
         subj_v = f"integrate[vectorised,{tag}]"
-        with ctx.guard("integral-equals-nested-sum", subj_v):
-            F.reset()
-            results["vectorised"] = mg.integrate(F) if rng.random() < 0.5 else mg.integrate(integrand_function=F, non_vectorized=False)
-            want_calls = int(np.prod(sizes[:-1])) if D > 1 else 1
-            ctx.check("integrand-invocations", subj_v, F.calls == want_calls, sig=f"calls/expected={F.calls / want_calls:.3g}", detail={"calls": F.calls, "want": want_calls, "sizes": sizes})
-            # every vectorised invocation: D arguments, the last one is the complete point array of the last domain
-            last_ok = all(len(a) == D and np.shape(a[-1]) == np.shape(doms[-1][0]) and np.array_equal(a[-1], doms[-1][0]) for a in F.log)
-            ctx.check("integrand-arguments", subj_v, last_ok, sig="last-argument-is-not-the-last-domain")
-            if D > 1 and ref_points is not None:
-                pre = c18ref.product_points(doms[:-1])
-                seq_ok = len(F.log) == len(pre) and all(all(np.array_equal(x, y) for x, y in zip(a[:-1], p)) for a, p in zip(F.log, pre))
-                ctx.check("integrand-arguments", subj_v + ":leading", seq_ok, sig="leading-arguments-not-in-product-order")
+        if "vec" in parts:
+            with ctx.guard("integral-equals-nested-sum", subj_v):
+                F.reset()
+                results["vectorised"] = mg.integrate(F) if rng.random() < 0.5 else mg.integrate(integrand_function=F, non_vectorized=False)
+                want_calls = int(np.prod(sizes[:-1])) if D > 1 else 1
+                ctx.check("integrand-invocations", subj_v, F.calls == want_calls, sig=f"calls/expected={F.calls / want_calls:.3g}", detail={"calls": F.calls, "want": want_calls, "sizes": sizes})
+                # every vectorised invocation: D arguments, the last one is the complete point array of the last domain
+                last_ok = all(len(a) == D and np.shape(a[-1]) == np.shape(doms[-1][0]) and np.array_equal(a[-1], doms[-1][0]) for a in F.log)
+                ctx.check("integrand-arguments", subj_v, last_ok, sig="last-argument-is-not-the-last-domain")
+                if D > 1 and ref_points is not None:
+                    pre = c18ref.product_points(doms[:-1])
+                    seq_ok = len(F.log) == len(pre) and all(all(np.array_equal(x, y) for x, y in zip(a[:-1], p)) for a, p in zip(F.log, pre))
+                    ctx.check("integrand-arguments", subj_v + ":leading", seq_ok, sig="leading-arguments-not-in-product-order")
         if F.bad_arity is not None:
             ctx.fail("integrand-arguments", subj_v, f"called-with-{'more' if F.bad_arity > D else 'fewer'}-arguments-than-domains", detail={"got": F.bad_arity, "D": D})
-        for ch in chunks or _chunks(n):
+        for ch in (chunks or _chunks(n)) if "pbp" in parts else ():
             subj_p = f"integrate[point-by-point,{tag}]"
             with ctx.guard("integral-equals-nested-sum", subj_p):
                 F.reset()
@@ -458,12 +533,17 @@ def _exercise(ctx, mg, grids_ref, dims, kinds, chunks=None, log_args=True):
             if F.bad_arity is not None:
                 ctx.fail("integrand-arguments", subj_p, f"called-with-{'more' if F.bad_arity > D else 'fewer'}-arguments-than-domains", detail={"got": F.bad_arity, "D": D})
         # all routes agree with each other (each was also compared with the nested sum by the monitor)
-        vals = [float(v) for v in results.values() if np.ndim(v) == 0]
+        vals = {k: complex(v) for k, v in results.items() if np.ndim(v) == 0}
         if len(vals) >= 2 and A > 0:
-            spread = (max(vals) - min(vals)) / float(A)
-            lo, hi = min(results, key=lambda k: float(results[k])), max(results, key=lambda k: float(results[k]))
-            ctx.check("routes-agree", f"integrate[{tag}]", spread, 2 * TOL, sig="routes-differ", detail={"lowest": lo, "highest": hi, "values": {k: float(v) for k, v in list(results.items())[:12]}})
-        if kind == "separable":
+            keys = list(vals)
+            spread, lo, hi = 0.0, keys[0], keys[0]
+            for i, a in enumerate(keys):
+                for b in keys[i + 1 :]:
+                    d = abs(vals[a] - vals[b]) / float(A)
+                    if d > spread or d != d:
+                        spread, lo, hi = d, a, b
+            ctx.check("routes-agree" + tag32, f"integrate[{tag}]", spread, 2 * tol, sig="routes-differ", detail={"one": lo, "other": hi, "values": {k: repr(v) for k, v in list(vals.items())[:12]}})
+        if kind == "separable" and not tag32:
             prod, mag = np.longdouble(1.0), np.longdouble(1.0)
             for k in range(D):
                 s, a = _single_integral(doms[k], f, k)
@@ -529,8 +609,156 @@ def run_case(ctx, family, params):
         _exercise(ctx, mg, grids, dims, [["coupled", "separable", "oscillating"][params["k"] % 3]], chunks=[6000, 4096, n // 2 + 1, 5999], log_args=True)
     elif family == "hostile":
         _hostile(ctx, params)
+    elif family == "history":
+        _history(ctx, params)
+    elif family == "huge-size":
+        _huge_size(ctx, params)
+    elif family == "forms":
+        _forms(ctx, params)
     else:
         raise ValueError(family)
+
+
+def _mutate(ctx, rng, g):
+    """Change one component grid through the public Grid interface; returns a label."""
+    how = str(rng.choice(["weights-setter", "weights-setter", "weights-inplace-mul", "weights-slice-assign", "points-setter", "points-inplace", "both-setters"]))
+    w = np.asarray(g.weights)
+    p = np.asarray(g.points)
+    # some grid classes re-define points/weights as read-only properties (AtomGrid.points): edit those in place
+    if getattr(getattr(type(g), "points", None), "fset", None) is None and how in ("points-setter", "both-setters"):
+        how = "points-inplace"
+    if getattr(getattr(type(g), "weights", None), "fset", None) is None and how in ("weights-setter", "both-setters", "weights-inplace-mul"):
+        how = "weights-slice-assign"
+    if how in ("weights-setter", "both-setters"):
+        g.weights = (rng.uniform(0.1, 2.0, w.shape) * (1.0 if rng.random() < 0.7 else 10.0 ** rng.uniform(-2, 2))).astype(w.dtype if w.dtype.kind == "f" else float)
+    if how == "weights-inplace-mul":
+        if w.dtype.kind == "f":
+            g.weights *= float(rng.uniform(1.5, 3.0))  # getter, in-place multiply, setter with the same array
+        else:
+            g.weights = w * int(rng.integers(2, 4))
+    if how == "weights-slice-assign":
+        g.weights[: max(1, len(w) // 2)] = rng.integers(1, 5, max(1, len(w) // 2)) if w.dtype.kind != "f" else rng.uniform(0.1, 2.0, max(1, len(w) // 2))
+    if how in ("points-setter", "both-setters"):
+        g.points = (p + rng.normal(size=p.shape) * 0.3).astype(p.dtype) if p.dtype.kind == "f" else p + rng.integers(-1, 2, p.shape)
+    if how == "points-inplace":
+        g.points[...] = p[::-1].copy()  # same set of points, reversed order
+    ctx.count("history:mutation:" + how)
+    return how
+
+
+def _history(ctx, params):
+    """One MultiDomainGrid object, several rounds; between rounds a component grid changes through its public setters."""
+    from grid.ngrid import MultiDomainGrid
+
+    rng = ctx.rng
+    D = params["D"]
+    if params["repeat"]:
+        g, d = _domain(rng, str(rng.choice(DOMAIN_KINDS)), int(rng.integers(1, 6)))
+        grids, dims = [g] * D, [d] * D
+        mg = MultiDomainGrid([g], num_domains=D)
+    else:
+        grids, dims = [], []
+        for sz in _sizes(rng, D, 600):
+            g, d = _domain(rng, str(rng.choice(DOMAIN_KINDS)), min(sz, 6))
+            grids.append(g)
+            dims.append(d)
+        if D >= 2 and rng.random() < 0.2:
+            grids[-1], dims[-1] = grids[0], dims[0]  # the same object in two positions
+        mg = MultiDomainGrid(grids)
+    n = int(np.prod([gg.size for gg in grids]))
+    rounds = int(rng.integers(4, 9))
+    all_parts = ("enum", "vec", "pbp")
+    for r in range(rounds):
+        if r == 0 or rng.random() < 0.35:
+            parts = all_parts
+        else:
+            parts = tuple(x for x in all_parts if rng.random() < 0.5) or (str(rng.choice(all_parts)),)
+        cand = _chunks(n)
+        chunks = [cand[int(i)] for i in rng.choice(len(cand), size=min(len(cand), int(rng.integers(1, 4))), replace=False)]
+        kind = str(rng.choice(["coupled", "separable", "oscillating"]))
+        _exercise(ctx, mg, grids, dims, [kind], chunks=chunks, parts=parts)
+        ctx.count("history:rounds")
+        if r < rounds - 1 and rng.random() < 0.8:
+            _mutate(ctx, rng, grids[int(rng.integers(0, D))])
+    ctx.case_note("rounds", rounds)
+
+
+def _huge_size(ctx, params):
+    """Product sets far too large to enumerate: size must still be the exact integer product."""
+    from grid.basegrid import Grid
+    from grid.ngrid import MultiDomainGrid
+
+    rng = ctx.rng
+    mode = params["mode"]
+    if params.get("pinned"):
+        ns, k = [params["n"]], params["k"]
+    else:
+        n = int(rng.choice([2, 3, 7, 10, 40, 150, 1000, 2000, 3900, 50000]))
+        bits = float(rng.uniform(40, 200)) if rng.random() < 0.8 else float(rng.uniform(62.5, 64.5))
+        ns = [n]
+        if mode == "mixed-list":
+            ns = [int(v) for v in rng.choice([2, 3, 7, 10, 40, 150, 1000, 2000, 3900], 3)]
+        k = max(2, int(round(bits / float(np.mean(np.log2(ns))))))
+    gs = []
+    for n in ns:
+        dim = int(rng.integers(0, 4))
+        gs.append(Grid(np.zeros((n, dim) if dim else n), np.ones(n)))
+    if mode == "repeated":
+        mg = MultiDomainGrid([gs[0]], num_domains=k)
+        want = ns[0] ** k
+    else:
+        glist = [gs[i % len(gs)] for i in range(k)]
+        mg = MultiDomainGrid(glist)
+        want = 1
+        for g in glist:
+            want *= int(g.weights.size)
+    subj = f"size[{'huge' if want >= 2**63 else 'large'},{'repeated' if mode == 'repeated' else 'list'}]"
+    with ctx.guard("size-equals-product-of-sizes", subj):
+        got = mg.size  # the attached post-condition decides it as well
+        ok = isinstance(got, (int, np.integer)) and int(got) == want
+        sig = None
+        if not ok and isinstance(got, (int, np.integer)):
+            sig = "int64-wraparound" if int(got) == (want + 2**63) % 2**64 - 2**63 else "mismatch"
+        ctx.check("size-equals-product-of-sizes", subj, ok, sig=sig, detail={"got": repr(got)[:40], "want": str(want), "sizes": ns, "D": k})
+        ctx.check("num-domains", f"num_domains[{'repeated' if mode == 'repeated' else 'list'}]:seen-by-caller", mg.num_domains == k)
+    ctx.case_note("size_bits", int(want.bit_length()))
+
+
+def _forms(ctx, params):
+    """Argument forms: dtypes of the component arrays, return types of the integrand, NumPy-integer num_domains."""
+    from grid.ngrid import MultiDomainGrid
+
+    rng = ctx.rng
+    form = params["form"]
+    D = int(rng.integers(1, 5))
+    repeated = bool(rng.random() < 0.35)
+    kind_of = {"int-grids": ["int-grid"], "float32-grids": ["float32-grid"], "float32-points-only": ["float32-points"]}.get(form, ["flat1d", "col1d", "2d", "3d", "int-grid"])
+    if form == "numpy-num-domains":
+        g, d = _domain(rng, str(rng.choice(["3d", "flat1d"])), int(rng.integers(1, 6)))
+        for nd in (np.int64(D), np.int32(D)):
+            try:
+                mg = MultiDomainGrid([g], num_domains=nd)
+                ctx.count(f"num_domains of type {type(nd).__name__} accepted")
+                _exercise(ctx, mg, [g] * D, [d] * D, ["coupled"], chunks=[3])
+            except ValueError:
+                ctx.count(f"num_domains of type {type(nd).__name__} rejected (ValueError; documented type int)")
+        mg = MultiDomainGrid([g], num_domains=D)
+        _exercise(ctx, mg, [g] * D, [d] * D, ["coupled"], chunks=[2])
+        return
+    if repeated:
+        g, d = _domain(rng, str(rng.choice(kind_of)), int(rng.integers(1, 7)))
+        grids, dims = [g] * D, [d] * D
+        mg = MultiDomainGrid([g], num_domains=D)
+    else:
+        grids, dims = [], []
+        for sz in _sizes(rng, D, 800):
+            g, d = _domain(rng, str(rng.choice(kind_of)), sz)
+            grids.append(g)
+            dims.append(d)
+        mg = MultiDomainGrid(grids)
+    returns = {"int-integrand": "int", "float32-integrand": "float32", "complex-integrand": "complex"}.get(form)
+    kinds = ["poly"] if returns else ["coupled", "separable", "poly"]
+    _exercise(ctx, mg, grids, dims, kinds, returns=returns)
 
 
 def _hostile(ctx, params):
